@@ -329,7 +329,7 @@ Proof.
   intros c d Hc (g & Hpv & Hw).
   pose proof (S_converge c reply_ok SAall True Tr Tr2 Tr1 TrG g (outside c d) d Hc
                 (fun _ _ H => H) (fun _ _ _ => forall_true _) (fun _ _ _ => I) (fun _ _ _ _ => I)
-                (cfg_self c Hc) (fun _ _ => I) (fun _ _ _ _ _ _ _ _ _ _ => I)
+                (cfg_self c Hc) (fun _ _ => I) (fun _ _ _ _ _ _ _ _ _ _ _ _ _ => I)
                 eq_refl Hpv (W_true c g Hw)) as HS.
   eapply safe_mono; [| |exact HS].
   - intros x. apply Inv_TaskInv.
